@@ -193,7 +193,8 @@ TARGETS.append(dict(
     records=RECORDS,
     opt_types={"fuzzy_match": "Opt:Rec:TcpMatch", "generic_match": "Opt:Rec:TcpMatch"},
     calls={"options.database.iter_values": _iter_tcp, "tcp_signatures_match": _sig_match, "TCPMatch": _tcp_match_ctor},
-    alias="def findTcpMatch (recs : List Rec) (p : PSig) (maxDist : Int) : Option TcpMatch := P0f.findTcpMatch recs p maxDist\n",
+    alias="def findTcpMatch_loop0 (recs : List Rec) (p : PSig) (maxDist : Int) (l : List Rec) (g f : Option TcpMatch) : Option TcpMatch := P0f.findLoop p maxDist l f g\n"
+          "def findTcpMatch (recs : List Rec) (p : PSig) (maxDist : Int) : Option TcpMatch := P0f.findTcpMatch recs p maxDist\n",
 ))
 
 TARGETS.append(dict(
@@ -316,7 +317,7 @@ UPTIME_RECORDS = {
 UPTIME_LEAN = "Q × Int × Int × Int"
 TARGETS.append(dict(
     module="pyp0f.fingerprint.results.uptime", func="Uptime.__post_init__", file="UptimePostInit", lean="uptimePostInit",
-    import_="P0f.Generated.Logic.RoundFrequency",
+    import_="P0f.Generated.Logic.RoundFrequency\nimport P0f.Model.UptimeFields",
     pyparams=["self", "timestamp"], params=[("timestamp", "Nat"), ("raw_frequency", "Q")], ret="Rec:UptimeV", lean_ret=UPTIME_LEAN,
     env={"timestamp": ("timestamp", "Nat"), "self.raw_frequency": ("raw_frequency", "Q")},
     assignable=("self.frequency", "self.total_minutes", "self.modulo_days"),
@@ -365,7 +366,7 @@ def _uptime_pre(stmts):
 UPRES_LEAN = "Option Int × Option (" + UPTIME_LEAN + ")"
 TARGETS.append(dict(
     module="pyp0f.fingerprint.uptime", func="fingerprint_uptime", file="FingerprintUptime", lean="fingerprintUptime",
-    import_="P0f.Generated.Logic.UptimePostInit\nimport P0f.Generated.Logic.ValidUptime",
+    import_="P0f.Generated.Logic.UptimePostInit\nimport P0f.Generated.Logic.ValidUptime\nimport P0f.Model.UptimeFields",
     pyparams=["packet", "last_packet_signature", "options"],
     params=[("o", "UpOpts"), ("isFragment", "Bool"), ("t", "Nat"), ("tsPrev", "Nat"), ("tsNow", "Nat"), ("now", "Int"), ("received", "Int")],
     ret="Opt:Rec:UptimeResult", lean_ret="Option (" + UPRES_LEAN + ")", pre=_uptime_pre,
